@@ -145,6 +145,20 @@ where
           | _, _, _, _ => none
         | _ => none
 
+/-- `params` as the harness tokenises the JSON text: `P-` absent, `Pz` null, `Px` another non-object,
+`P o{ k<hex> <value> … }` the members in source order (repeated and case-variant names kept). -/
+def parseParams : List String → Option (RawParams × List String)
+  | "P-" :: r => some (.absent, r)
+  | "Pz" :: r => some (.null, r)
+  | "Px" :: r => some (.other, r)
+  | "P" :: r =>
+    match parseJV r with
+    | some (.obj f, r') => some (.obj f, r')
+    | _ => none
+  | _ => none
+
+/-- The arguments of a call: either already decoded (`AB` / `AM` / `AO <object>`, records of generator epochs ≤ 3) or the
+whole `params` member list, which the model decodes itself (`decodeArgs`: exact member names). -/
 def parseArgs : List String → Option (Args × List String)
   | "AB" :: r => some (.bad, r)
   | "AM" :: r => some (.missing, r)
@@ -152,7 +166,25 @@ def parseArgs : List String → Option (Args × List String)
     match parseJV r with
     | some (.obj f, r') => some (.obj f, r')
     | _ => none
-  | _ => none
+  | toks => (parseParams toks).map (fun (p, r) => (decodeArgs p, r))
+
+/-- More than one member of `params` is called exactly `arguments` (the shape of preflight-F31). -/
+def repeatedArguments : RawParams → Bool
+  | .obj ms => (ms.filter (fun kv => kv.1 == Generated.Preflight.memberArguments)).length ≥ 2
+  | _ => false
+
+def f31Clause : String :=
+  "C12: preflight-F31 repeated `arguments` member: the Mcp-Param headers are validated against the MERGED members, the tool handler receives the last one"
+
+/-- The arguments as the repaired code decodes them, as the pinned tree does (merging repeated members), and whether the
+two can differ at all. -/
+def parseArgsU (toks : List String) : Option (Args × Args × Bool × List String) :=
+  match toks with
+  | tok :: _ =>
+    if tok.startsWith "P" then
+      (parseParams toks).map (fun (p, r) => (decodeArgs p, decodeArgsUnrepaired p, repeatedArguments p, r))
+    else (parseArgs toks).map (fun (a, r) => (a, a, false, r))
+  | [] => none
 
 def parsePrim (tok : String) : Option Prim :=
   if tok.startsWith "S" then (hexB (tail1 tok)).map Prim.str
@@ -213,37 +245,48 @@ def perrTok : PErr → String
 
 /-! ### messages and requests -/
 
-partial def parseMsg : List String → Option (Msg × List String)
+/-- A message as the harness describes it: the undecoded message for the model, and what the implementation's own
+extractors returned for it (`extractName`, `extractRequestMeta`) — compared with the model's decoding by the monitor. -/
+structure MsgIn where
+  raw : RawMsg
+  implNameOk : Bool
+  implName : Bytes
+  implMeta : Bytes
+
+/-- `T{ t<hex> p{ … } t<hex> p{ … } }`: the server's tool table as far as the request can name it. -/
+partial def parseTools : List String → List (Bytes × Props) → Option (List (Bytes × Props) × List String)
+  | "}" :: r, acc => some (acc.reverse, r)
+  | t :: r, acc =>
+    if !t.startsWith "t" then none else
+    match hexB (tail1 t), parseProps r with
+    | some name, some (p, r') => parseTools r' ((name, p) :: acc)
+    | _, _ => none
+  | [], _ => none
+
+partial def parseMsg : List String → Option (MsgIn × List String)
   | "m{" :: "r0" :: "}" :: r =>
-    some ({ isReq := false, method := [], isCall := false, check := .ok, metaVersion := [], nameOk := false, name := [],
-            args := .missing, tool := none }, r)
-  | "m{" :: "r1" :: c :: q :: m :: v :: n :: nm :: r =>
+    some ({ raw := { isReq := false, method := [], isCall := false, check := .ok, decodeOk := false, params := .absent, tools := [] },
+            implNameOk := false, implName := [], implMeta := [] }, r)
+  | "m{" :: "r1" :: c :: q :: m :: v :: n :: nm :: "T{" :: r =>
     let chk : Option CheckRes := if q == "qok" then some .ok else if q == "qnh" then some .notHandled else if q == "qinv" then some .invalid else none
-    match chk, hexB (tail1 m), hexB (tail1 v), hexB (tail1 nm), parseArgs r with
-    | some chk, some m, some v, some nm, some (args, r1) =>
-      let fin (tool : Option Props) (r2 : List String) : Option (Msg × List String) :=
-        match r2 with
-        | "}" :: r3 => some ({ isReq := true, method := m, isCall := c == "c1", check := chk, metaVersion := v,
-                                nameOk := n == "n1", name := nm, args := args, tool := tool }, r3)
-        | _ => none
-      match r1 with
-      | "T-" :: r2 => fin none r2
-      | "T" :: r2 =>
-        match parseProps r2 with
-        | some (p, r3) => fin (some p) r3
-        | none => none
+    match chk, hexB (tail1 m), hexB (tail1 v), hexB (tail1 nm), parseTools r [] with
+    | some chk, some m, some v, some nm, some (tools, r1) =>
+      match parseParams r1 with
+      | some (p, "}" :: r2) =>
+        some ({ raw := { isReq := true, method := m, isCall := c == "c1", check := chk, decodeOk := n == "n1", params := p, tools := tools },
+                implNameOk := n == "n1", implName := nm, implMeta := v }, r2)
       | _ => none
     | _, _, _, _, _ => none
   | _ => none
 
-partial def parseMsgs : List String → List Msg → Option (List Msg)
+partial def parseMsgs : List String → List MsgIn → Option (List MsgIn)
   | [], acc => some acc.reverse
   | toks, acc =>
     match parseMsg toks with
     | some (m, r) => parseMsgs r (m :: acc)
     | none => none
 
-def parseReq (toks : List String) : Option Req :=
+def parseReq (toks : List String) : Option (Req × List MsgIn) :=
   match toks with
   | k :: pd :: la :: ll :: hl :: orj :: m :: ct :: rest =>
     match parseAccept rest with
@@ -253,10 +296,11 @@ def parseReq (toks : List String) : Option Req :=
         let kind : Option HKind := if k == "Ksl" then some .stateless else if k == "Ksf" then some .stateful else if k == "Ksse" then some .sse else none
         let meth : Option Meth := if m == "MG" then some .get else if m == "MP" then some .post else if m == "MD" then some .delete else if m == "MO" then some .other else none
         let sess : Option SessRef := if ss == "ssn" then some .none else if ss == "ssk" then some .known else if ss == "ssu" then some .unknown else none
-        let content : Option Content := match body with
-          | ["bM"] => some .malformed
-          | "bS" :: r => (parseMsgs r []).map (Content.msgs false)
-          | "bB" :: r => (parseMsgs r []).map (Content.msgs true)
+        -- the gates see every message decoded from its member list (`RawMsg.decode`)
+        let content : Option (Content × List MsgIn) := match body with
+          | ["bM"] => some (.malformed, [])
+          | "bS" :: r => (parseMsgs r []).map (fun l => (Content.msgs false (l.map (·.raw.decode)), l))
+          | "bB" :: r => (parseMsgs r []).map (fun l => (Content.msgs true (l.map (·.raw.decode)), l))
           | _ => none
         -- `dl<n>`: the declared Content-Length, `dl-1` = none (chunked); `rf1`: the body reader ends with an error
         let declared : Option (Option Nat) :=
@@ -268,12 +312,14 @@ def parseReq (toks : List String) : Option Req :=
         | none => none
         | some declared =>
         match kind, meth, sess, content, hexB (tailN 2 ct), hexB (tailN 2 pv), (tailN 3 lim).toInt?, (tailN 3 len).toNat?, hexB (tailN 2 mm), hexB (tailN 2 mn) with
-        | some kind, some meth, some sess, some content, some ct, some pv, some lim, some len, some mm, some mn =>
-          some { kind := kind, protectionDisabled := pd == "pd1", hasLocalAddr := la == "la1", listenerLoopback := ll == "ll1",
+        | some kind, some meth, some sess, some (content, ins), some ct, some pv, some lim, some len, some mm, some mn =>
+          let req : Req :=
+               { kind := kind, protectionDisabled := pd == "pd1", hasLocalAddr := la == "la1", listenerLoopback := ll == "ll1",
                  hostLoopback := hl == "hl1", originRejects := orj == "or1", method := meth, baseMedia := ct, accept := acc,
                  version := pv, sess := sess, noSessionIds := ns == "ns1", lastEventId := le == "le1", limit := lim, bodyLen := len,
                  declared := declared, readFails := rf == "rf1", content := content,
                  mcpMethod := mm, mcpName := mn, paramHdrs := hdrs }
+          some (req, ins)
         | _, _, _, _, _, _, _, _, _, _ => none
       | none => none
     | _ => none
@@ -315,9 +361,22 @@ def bindingMirrors (a : Args) (h : ParamHdrs) (b : Binding) : Bool :=
         | none => false
         | some d => primitiveEqual d p)
 
+/-- Diagnosis for the name clause: the header equals the value of a member whose name differs from the identifying
+member's only in case (a member the case-sensitive dispatcher ignores). -/
+def decoyNote (r : Req) (ins : List MsgIn) : String :=
+  match ins with
+  | [mi] =>
+    (match nameMemberOf mi.raw.method, mi.raw.params with
+     | some key, .obj ms =>
+       (match ms.find? (fun kv => kv.1 != key && lowerBytes kv.1 == lowerBytes key && (match kv.2 with | .str s => s == r.mcpName | _ => false)) with
+        | some kv => s!"; Mcp-Name equals the member {bHex kv.1}, whose name differs in case and which the dispatcher ignores"
+        | none => "")
+     | _, _ => "")
+  | _ => ""
+
 /-- Names of the documented preconditions of a message-carrying POST that `r` violates, each with the answers the
 code mandates for it (status, optional JSON-RPC code). Declarative: no ordering is implied. -/
-def violations (r : Req) : List (String × List (Nat × Option Int)) :=
+def violations (r : Req) (ins : List MsgIn := []) : List (String × List (Nat × Option Int)) :=
   let v (c : Bool) (name : String) (ans : List (Nat × Option Int)) : List (String × List (Nat × Option Int)) :=
     if c then [(name, ans)] else []
   let pv := if r.version = [] then "2025-03-26".toUTF8.toList.map UInt8.toNat else r.version
@@ -368,7 +427,10 @@ def violations (r : Req) : List (String × List (Nat × Option Int)) :=
        if !(newProto && m.isReq) then [] else
        let named := specNamed.contains m.method
        v (r.mcpMethod != m.method) "Mcp-Method differs from the method" [(400, some (-32020))] ++
-       v (named && (!m.nameOk || r.mcpName == [] || r.mcpName != m.name)) "Mcp-Name differs from the name" [(400, some (-32020))] ++
+       -- the name is the value of the params member called exactly `name` / `uri`: the one the dispatcher decodes and runs
+       v (named && (!m.nameOk || r.mcpName == [] || r.mcpName != m.name))
+         ("Mcp-Name differs from the name that is dispatched (the params member called exactly `name` / `uri`)" ++ decoyNote r ins)
+         [(400, some (-32020))] ++
        (match m.tool with
         | some p =>
           if m.method == specToolsCall && m.nameOk && (match m.args with | .bad => false | _ => true) then
@@ -422,15 +484,17 @@ structure HttpObs where
   reached : Nat
   handled : Nat
   disp : Nat
+  names : String        -- `X=`: the names (hex, comma-separated, sorted) the tool / prompt / resource handlers were run for, `-` none
 
 def parseHttpObs (s : String) : Option HttpObs :=
   match words s with
-  | [st, e, a, r, h, d] =>
+  | [st, e, a, r, h, d, x] =>
     match (tailN 2 st).toNat?, (tailN 2 r).toNat?, (tailN 2 h).toNat?, (tailN 2 d).toNat? with
     | some st, some r, some h, some d =>
       let code := if e == "E=-" then none else (tailN 2 e).toInt?
       let allow := if a == "A=-" then none else hexB (tailN 2 a)
-      some { status := st, code := code, allow := allow, reached := r, handled := h, disp := d }
+      if !x.startsWith "X=" then none else
+      some { status := st, code := code, allow := allow, reached := r, handled := h, disp := d, names := tailN 2 x }
     | _, _, _, _ => none
   | _ => none
 
@@ -443,23 +507,40 @@ def lateErrors : List (Nat × Option Int) := [(404, some (-32601)), (400, some (
 def showOutcome (r : Req) (o : Outcome) (impl : Option HttpObs) : String :=
   match o with
   | .reject st code allow =>
-    s!"S={st} E={optInt code} A={match allow with | some a => bHex a | none => "-"} R=0 H=0 D=0"
+    s!"S={st} E={optInt code} A={match allow with | some a => bHex a | none => "-"} R=0 H=0 D=0 X=-"
   | .dispatched calls =>
     -- what the session does with a dispatched message is not this property's business: the counters are echoed, and so
     -- is the status of a call under >= 2026-07-28 when it is one of the SEP-2575 error mappings
     match impl with
     | some ob =>
-      if !calls then s!"S=202 E=- A=- R={ob.reached} H={ob.handled} D=1"
+      -- but WHICH tool / prompt / resource runs is: when the single message of the body made one handler run, it ran
+      -- for the name the model decoded from the member list (exact member name; the dispatcher's decoder)
+      let x := match soleMsg r with
+        | some m => if ob.handled == 1 && m.isReq then bHex m.name else ob.names
+        | none => ob.names
+      if !calls then s!"S=202 E=- A=- R={ob.reached} H={ob.handled} D=1 X={x}"
       else if bLe spec20260728 r.version && lateErrors.contains (ob.status, ob.code) then
-        s!"S={ob.status} E={optInt ob.code} A=- R={ob.reached} H={ob.handled} D=1"
-      else s!"S=200 E=- A=- R={ob.reached} H={ob.handled} D=1"
-    | none => s!"S={if calls then 200 else 202} E=- A=- R=0 H=0 D=1"
+        s!"S={ob.status} E={optInt ob.code} A=- R={ob.reached} H={ob.handled} D=1 X={x}"
+      else s!"S=200 E=- A=- R={ob.reached} H={ob.handled} D=1 X={x}"
+    | none => s!"S={if calls then 200 else 202} E=- A=- R=0 H=0 D=1 X=-"
   | .served st =>
-    let (rr, h) := match impl with | some o => (o.reached, o.handled) | none => (0, 0)
-    s!"S={st} E=- A=- R={rr} H={h} D=0"
+    let (rr, h, x) := match impl with | some o => (o.reached, o.handled, o.names) | none => (0, 0, "-")
+    s!"S={st} E=- A=- R={rr} H={h} D=0 X={x}"
 
-def httpMonitor (r : Req) (o : HttpObs) : Option String :=
-  let viol := violations r
+/-- The mirror seen from the handler's side: under >= 2026-07-28 a tool / prompt / resource handler ran for a name other
+than the one `Mcp-Name` announced. -/
+def handlerNameMonitor (r : Req) (o : HttpObs) : Option String :=
+  match r.kind, r.content with
+  | .sse, _ => none
+  | _, .msgs false [m] =>
+    if o.disp == 1 && o.handled == 1 && m.isReq && bLe spec20260728 r.version && specNamed.contains m.method &&
+        o.names != "-" && o.names != bHex r.mcpName then
+      some s!"C12: name_mirror: the handler ran for {o.names} although Mcp-Name announced {bHex r.mcpName}"
+    else none
+  | _, _ => none
+
+def httpMonitor (r : Req) (o : HttpObs) (ins : List MsgIn := []) : Option String :=
+  let viol := violations r ins
   let carries := r.method == .post
   let dispatched := o.disp == 1
   if !dispatched && (o.reached != 0 || o.handled != 0) then
@@ -583,16 +664,18 @@ def stepOp (toks : List String) (impl : String) : Verdict :=
   | "vph" :: r =>
     match parseProps r with
     | some (p, r1) =>
-      match parseArgs r1 with
-      | some (a, r2) =>
+      match parseArgsU r1 with
+      | some (a, au, rep, r2) =>
         match parseHdrs r2 with
         | some (h, []) =>
-          let model := match validateParamHeaders std64 p a h with
+          let show_ (a : Args) : String := match validateParamHeaders std64 p a h with
             | none => "ok"
             | some e => if (bindings p).length == 1 then "err " ++ perrTok e else "err"
+          let model := show_ a
           -- monitor: the function accepts iff every binding mirrors the body
           let spec := match a with | .bad => true | _ => (bindings p).all (bindingMirrors a h)
-          let viol := if (impl == "ok") == spec then none
+          let viol := if rep && impl != model && impl == show_ au then some f31Clause
+            else if (impl == "ok") == spec then none
             else if impl != "ok" && f6Like p a h then some "C12: F6 empty-string argument: validateParamHeaders refuses the empty Mcp-Param header the SDK client sends"
             else if impl == "ok" then
               (match (bindings p).find? (fun b => !bindingMirrors a h b) with
@@ -603,6 +686,27 @@ def stepOp (toks : List String) (impl : String) : Verdict :=
         | _ => bad
       | none => bad
     | none => bad
+  | "params" :: m :: r =>
+    -- the implementation's extractors (`extractName`, `extractRequestMeta`) on a params object of a foreign peer against the
+    -- model's decoding of the member list: exact member names, a repeated member overwrites (`_meta`: merges)
+    match hexB (tail1 m), parseParams r with
+    | some method, some (p, []) =>
+      let dn := decodeName method p
+      let mv := decodeMetaVersion p
+      -- whether the members other than the identifying one decode is the implementation's word (`n`)
+      let implOk := (words impl).head? == some "n1"
+      let ok := implOk && dn.isSome
+      let model := s!"n{if ok then 1 else 0} N{if ok then bHex (dn.getD []) else ""} V{bHex mv}"
+      let viol : Option String := match words impl with
+        | [_, n, v] =>
+          if implOk && some (tail1 n) != dn.map bHex then
+            some s!"C12: name_mirror_case_sensitive: extractName yields {tail1 n}; the params member called exactly {match nameMemberOf method with | some k => bHex k | none => "-"} (what the dispatcher decodes and runs) is {match dn with | some x => bHex x | none => "not a string"}"
+          else if tail1 v != bHex mv then
+            some s!"C12: meta_mirror_case_sensitive: extractRequestMeta yields protocol version {tail1 v}; the member called exactly _meta carries {bHex mv}"
+          else none
+        | _ => some "C12: name_mirror_case_sensitive: unreadable extractor output"
+      { model := model, violated := viol }
+    | _, _ => bad
   | "e2e" :: nk :: r =>
     match parseProps r with
     | some (p, r1) =>
@@ -626,12 +730,22 @@ def stepOp (toks : List String) (impl : String) : Verdict :=
     | none => bad
   | "http" :: r =>
     match parseReq r with
-    | some req =>
+    | some (req, ins) =>
       let o := verdict std64 req
       let obs := parseHttpObs impl
       let viol := match obs with
-        | some ob => httpMonitor req ob
+        | some ob => (httpMonitor req ob ins).orElse (fun _ => handlerNameMonitor req ob)
         | none => some s!"C12: the handler did not answer ({impl})"
+      -- preflight-F31: the violation is exactly what merging the repeated `arguments` members (pinned tree) produces
+      let viol := match viol, ins with
+        | some v, [mi] =>
+          if repeatedArguments mi.raw.params then
+            let reqU : Req := { req with content := match req.content with
+              | .msgs b [m] => .msgs b [{ m with args := decodeArgsUnrepaired mi.raw.params }]
+              | c => c }
+            if showOutcome reqU (verdict std64 reqU) obs == impl then some f31Clause else some v
+          else some v
+        | v, _ => v
       { model := showOutcome req o obs, violated := viol }
     | none => bad
   | _ => bad
